@@ -1,9 +1,12 @@
-/* C20 - time allocation never exceeds the clock.
-   (A) computeTimeForFixedLength(T, n, ply) as compiled, libm exp/pow replaced by their contracts:
-         0 <= result <= T   and   T1 <= T2  =>  result(T1) <= result(T2)          (n concrete per query)
-   (B) calculateTime as compiled with computeTimeForFixedLength replaced by contract (A):
-         result >= 0, 10*result <= 7*remaining, monotone in remaining              (all clock states)
-   (C) calculateTime with the real computeTimeForFixedLength for small movestogo (composition sanity, no contract) */
+/* C20 - time allocation never exceeds the clock.  Assume/guarantee decomposition (floating point is the obstacle):
+   (I)  importance(x) as compiled, exp/pow by contract, precise IEEE arithmetic:            result in [0.01, 1]
+   (L)  lemmas about single IEEE operations, precise:  add (a,b>=0 => r>=a, r>=b), div (0.01<=a<=b => 0<=a/b<=1),
+        truncation (0<=p<=T => 0<=(long)p<=T);  the multiplication facts (0<=r<=1, x>=0 => 0<=fl(r*x)<=x; monotone in x;
+        10*trunc(fl(0.7*t)) <= 7*t) are ATTEMPTED and, when the solvers do not finish, remain assumptions
+   (A)  computeTimeForFixedLength as compiled, importance() by contract (I), IEEE operations by the contracts (L):
+        for every movesToGo 1..200:  0 <= result <= T  and monotone in T
+   (B)  calculateTime as compiled, computeTimeForFixedLength by contract (A), the 0.7*t product by the contract above:
+        result >= 0, 10*result <= 7*remaining, monotone in remaining -- all clock states */
 #include "eng.h"
 #include "fields.h"
 double nondet_double(void); uint32_t nondet_u32(void); int32_t nondet_i32(void); int64_t nondet_i64(void);
@@ -14,87 +17,109 @@ double nondet_double(void); uint32_t nondet_u32(void); int32_t nondet_i32(void);
 #endif
 int32_t ce_t1, ce_t2, ce_inc, ce_mtg, ce_ply, ce_side; int64_t ce_r1, ce_r2, ce_T1, ce_T2;
 
-/* libm contracts.  exp(x) >= 0 and finite for the arguments that occur (|x| < 250); pow(b, e) in [0,1] for b >= 1, e < 0.
-   Determinism: the k-th call of the second run returns what the k-th call of the first run returned if the argument
-   is the same (the two runs of a monotonicity query make the same calls in the same order). */
-#define MEMO 512
-static double ea[MEMO], er[MEMO], pa[MEMO], pr[MEMO]; static int ek, pk, run2;
-double exp(double x) {
-  __CPROVER_assert(x > -250.0 && x < 250.0, "exp argument within the range the contract covers");
-  int k = ek++; __CPROVER_assert(k < MEMO, "memo capacity");
-  if (run2 && ea[k] == x) return er[k];
-  double r = nondet_double(); __CPROVER_assume(r >= 0.0 && r <= 1e300);
-  if (!run2) { ea[k] = x; er[k] = r; }
+#ifdef PART_I
+double exp(double x) { double r = nondet_double(); __CPROVER_assume(r >= 0.0 && r <= 1e300); return r; }
+double pow(double b, double e) { __CPROVER_assert(b >= 1.0 && e < 0.0, "pow called with base >= 1 and negative exponent (contract domain)"); double r = nondet_double(); __CPROVER_assume(r >= 0.0 && r <= 1.0); return r; }
+double _ZN6engine10importanceEd(double);
+void h_importance(void) {
+  double x = nondet_double(); __CPROVER_assume(x >= 0.0 && x <= 1500.0);
+  double v = _ZN6engine10importanceEd(x);
+  PROP(v >= 0.01 && v <= 1.0, "C20(I) importance of a move lies in [0.01, 1]");
+}
+#endif
+
+#ifdef PART_L
+void l_add(void) { double a = nondet_double(), b = nondet_double(); __CPROVER_assume(a >= 0.0 && a <= 1e6 && b >= 0.0 && b <= 1e6); double r = a + b; PROP(r >= a && r >= b && r <= 2.0e6, "C20(L) IEEE addition of non-negative values does not fall below its operands"); }
+void l_div(void) { double a = nondet_double(), b = nondet_double(); __CPROVER_assume(a >= 0.01 && a <= b && b <= 2e6); double r = a / b; PROP(r >= 0.0 && r <= 1.0, "C20(L) IEEE quotient of 0.01 <= a <= b lies in [0,1]"); }
+void l_trunc(void) { double p = nondet_double(); int64_t T = nondet_i64(); __CPROVER_assume(T >= 0 && T <= 2147483647LL && p >= 0.0 && p <= (double)T); int64_t v = (int64_t)p; PROP(v >= 0 && v <= T, "C20(L) truncation of a value in [0,T] lies in [0,T]"); }
+void l_mul(void) { double x = nondet_double(), r = nondet_double(); __CPROVER_assume(x >= 0.0 && x <= 2147483648.0 && r >= 0.0 && r <= 1.0); double p = r * x; PROP(p >= 0.0 && p <= x, "C20(L) IEEE product with a factor in [0,1] does not exceed the other factor"); }
+void l_mono(void) { double x1 = nondet_double(), x2 = nondet_double(), r = nondet_double(); __CPROVER_assume(x1 >= 0.0 && x1 <= x2 && x2 <= 2147483648.0 && r >= 0.0 && r <= 1.0); PROP(r * x1 <= r * x2, "C20(L) IEEE multiplication is monotone"); }
+void l_70(void) { int32_t t1 = nondet_i32(), t2 = nondet_i32(); __CPROVER_assume(t1 >= 0 && t1 <= t2 && t2 <= 86400000); int64_t v1 = (int64_t)(0.7 * (double)t1), v2 = (int64_t)(0.7 * (double)t2); PROP(v1 >= 0 && 10 * v1 <= 7 * (int64_t)t1 && v1 <= v2, "C20(L) trunc(0.7*t) is at most 70% of t and monotone"); }
+#endif
+
+#if defined(PART_A) || defined(PART_B)
+/* contracts of single IEEE operations (LL2C_FP_ABSTRACT): results are arbitrary values satisfying the lemmas; the k-th
+   operation of the second run returns what the k-th operation of the first run returned when the operands are equal */
+#define MEMO 1024
+static int run2;
+static double m_a[4][MEMO], m_b[4][MEMO], m_r[4][MEMO]; static int m_k[4];
+static double memo(int op, double a, double b, double r) {
+  int k = m_k[op]++; __CPROVER_assert(k < MEMO, "memo capacity");
+  if (run2 && m_a[op][k] == a && m_b[op][k] == b) return m_r[op][k];
+  if (!run2) { m_a[op][k] = a; m_b[op][k] = b; m_r[op][k] = r; }
   return r;
 }
-double pow(double b, double e) {
-  __CPROVER_assert(b >= 1.0 && e < 0.0, "pow called with base >= 1 and negative exponent (contract domain)");
-  int k = pk++; __CPROVER_assert(k < MEMO, "memo capacity");
-  if (run2 && pa[k] == b) return pr[k];
-  double r = nondet_double(); __CPROVER_assume(r >= 0.0 && r <= 1.0);
-  if (!run2) { pa[k] = b; pr[k] = r; }
-  return r;
+double ll2c_abs_fadd(double a, double b) { double r = nondet_double(); if (a >= 0.0 && b >= 0.0 && a <= 1e6 && b <= 1e6) __CPROVER_assume(r >= a && r >= b && r <= 2.0e6); return memo(0, a, b, r); }
+double ll2c_abs_fsub(double a, double b) { return memo(1, a, b, nondet_double()); }
+double ll2c_abs_fdiv(double a, double b) { double r = nondet_double(); if (a >= 0.01 && a <= b && b <= 2e6) __CPROVER_assume(r >= 0.0 && r <= 1.0); return memo(2, a, b, r); }
+double ll2c_abs_fmul(double a, double b) {
+  int k = m_k[3]++; __CPROVER_assert(k < MEMO, "memo capacity");
+  double p = nondet_double();
+  if (a == 0.7 && b >= 0.0 && b <= 86400000.0) {           /* Duration(0.7 * our_time): p is integer-valued with 10*p <= 7*b (assumed fact l_70; its only consumer truncates) */
+    int64_t bi = (int64_t)b, v = nondet_i64(); __CPROVER_assume(v >= 0 && 10 * v <= 7 * bi); p = (double)v;
+    if (run2 && m_a[3][k] == a) { if (b >= m_b[3][k]) __CPROVER_assume(p >= m_r[3][k]); if (b <= m_b[3][k]) __CPROVER_assume(p <= m_r[3][k]); }
+  } else if (a >= 0.0 && b >= 0.0 && a <= 1.0 && b <= 2147483648.0) { /* ratio * total */
+    __CPROVER_assume(p >= 0.0 && p <= b);
+    if (run2 && m_a[3][k] == a) { if (b >= m_b[3][k]) __CPROVER_assume(p >= m_r[3][k]); if (b <= m_b[3][k]) __CPROVER_assume(p <= m_r[3][k]); }
+  } else if (a >= 0.0 && b >= 0.0 && b <= 1.0 && a <= 2147483648.0) { /* total * ratio */
+    __CPROVER_assume(p >= 0.0 && p <= a);
+    if (run2 && m_b[3][k] == b) { if (a >= m_a[3][k]) __CPROVER_assume(p >= m_r[3][k]); if (a <= m_a[3][k]) __CPROVER_assume(p <= m_r[3][k]); }
+  }
+  if (!run2) { m_a[3][k] = a; m_b[3][k] = b; m_r[3][k] = p; }
+  return p;
 }
+#endif
 
 #ifdef PART_A
-static void fixed_case(int n) {
-  int64_t T1 = nondet_i64(), T2 = nondet_i64(); int32_t ply = nondet_i32();
-  __CPROVER_assume(0 <= T1 && T1 <= T2 && T2 <= 2147483647LL && ply >= 0 && ply <= 1000);
+/* importance() by its contract (I): a value in [0.01, 1], the same for the same argument */
+static double i_x[MEMO], i_v[MEMO]; static int i_k;
+double _ZN6engine10importanceEd(double x) {
+  int k = i_k++; __CPROVER_assert(k < MEMO, "memo capacity");
+  if (run2 && i_x[k] == x) return i_v[k];
+  double v = nondet_double(); __CPROVER_assume(v >= 0.01 && v <= 1.0);
+  if (!run2) { i_x[k] = x; i_v[k] = v; }
+  return v;
+}
+void h_fixed(void) {
+  int64_t T1 = nondet_i64(), T2 = nondet_i64(); int32_t ply = nondet_i32(), n = nondet_i32();
+  __CPROVER_assume(0 <= T1 && T1 <= T2 && T2 <= 2147483647LL && ply >= 0 && ply <= 1000 && n >= 1 && n <= NMAX);
   ce_T1 = T1; ce_T2 = T2; ce_ply = ply; ce_mtg = n;
   int64_t r1 = (int64_t)_ZN6engine11TimeManager25computeTimeForFixedLengthElii(T1, n, ply);
-  run2 = 1; ek = 0; pk = 0;
+  run2 = 1; i_k = 0; m_k[0] = m_k[1] = m_k[2] = m_k[3] = 0;
   int64_t r2 = (int64_t)_ZN6engine11TimeManager25computeTimeForFixedLengthElii(T2, n, ply);
   ce_r1 = r1; ce_r2 = r2;
   PROP(r1 >= 0 && r1 <= T1 && r2 >= 0 && r2 <= T2, "C20(A) fixed-length allotment lies in [0, total time]");
   PROP(r1 <= r2, "C20(A) fixed-length allotment is monotone in the total time");
 }
-#define FIXED(n) void h_fixed_##n(void) { fixed_case(n); }
-FIXED(1) FIXED(2) FIXED(3) FIXED(4) FIXED(5) FIXED(6) FIXED(8) FIXED(10) FIXED(12) FIXED(16)
 #endif
 
 #ifdef PART_B
-/* contract stub of computeTimeForFixedLength, proved by part (A) for the listed n and assumed for larger n */
-static int64_t c_T[256], c_r[256]; static int brun2;
+/* contract stub of computeTimeForFixedLength, established by part (A) for every movesToGo 1..200 */
+static int64_t c_T[256], c_r[256];
 uint64_t _ZN6engine11TimeManager25computeTimeForFixedLengthElii(uint64_t T, uint32_t n, uint32_t ply) {
   int64_t t = (int64_t)T;
   __CPROVER_assert(t >= 0 && t <= 2147483647LL, "total time passed to the fixed-length routine is a non-negative int");
-  __CPROVER_assert(n >= 1 && n < 256, "moves-to-go index in range");
+  __CPROVER_assert(n >= 1 && n <= 200, "moves-to-go in the range covered by contract (A)");
   int64_t r = nondet_i64(); __CPROVER_assume(r >= 0 && r <= t);
-  if (brun2) { if (t >= c_T[n & 255]) __CPROVER_assume(r >= c_r[n & 255]); if (t <= c_T[n & 255]) __CPROVER_assume(r <= c_r[n & 255]); }
+  if (run2) { if (t >= c_T[n & 255]) __CPROVER_assume(r >= c_r[n & 255]); if (t <= c_T[n & 255]) __CPROVER_assume(r <= c_r[n & 255]); }
   else { c_T[n & 255] = t; c_r[n & 255] = r; }
   return (uint64_t)r;
 }
-#endif
-#if defined(PART_B) || defined(PART_C)
 static struct S_struct_engine__Limits L1, L2;
-static void calc_case(int32_t mtg_max) {
+void h_calc(void) {
   uint32_t side = nondet_u32() & 1;
   int32_t t1 = nondet_i32(), t2 = nondet_i32(), inc = nondet_i32(), mtg = nondet_i32(), ply = nondet_i32();
-  __CPROVER_assume(0 <= t1 && t1 <= t2 && t2 <= 86400000 && inc >= 0 && inc <= 600000 && mtg >= 0 && mtg <= mtg_max && ply >= 0 && ply <= 1000);
-#ifdef PART_C
-  __CPROVER_assume(mtg >= 1);     /* movestogo == 0 means 50 in the code under test: covered by part (B) */
-#endif
+  __CPROVER_assume(0 <= t1 && t1 <= t2 && t2 <= 86400000 && inc >= 0 && inc <= 600000 && mtg >= 0 && mtg <= 200 && ply >= 0 && ply <= 1000);
   ce_t1 = t1; ce_t2 = t2; ce_inc = inc; ce_mtg = mtg; ce_ply = ply; ce_side = side;
   L1.LIM_timeleft[side] = t1; L1.LIM_timeinc[side] = inc; L1.LIM_movestogo = mtg;
   L2.LIM_timeleft[side] = t2; L2.LIM_timeinc[side] = inc; L2.LIM_movestogo = mtg;
-  /* the other colour's clock is arbitrary and must not matter */
   L1.LIM_timeleft[1 - side] = nondet_i32(); L1.LIM_timeinc[1 - side] = nondet_i32(); L2.LIM_timeleft[1 - side] = nondet_i32(); L2.LIM_timeinc[1 - side] = nondet_i32();
   int64_t r1 = (int64_t)_ZN6engine11TimeManager13calculateTimeERKNS_6LimitsENS_5ColorEi(&L1, side, ply);
-#ifdef PART_B
-  brun2 = 1;
-#else
-  run2 = 1; ek = 0; pk = 0;
-#endif
+  run2 = 1; m_k[0] = m_k[1] = m_k[2] = m_k[3] = 0;
   int64_t r2 = (int64_t)_ZN6engine11TimeManager13calculateTimeERKNS_6LimitsENS_5ColorEi(&L2, side, ply);
   ce_r1 = r1; ce_r2 = r2;
   PROP(r1 >= 0 && r2 >= 0, "C20 allotted time is non-negative");
   PROP(10 * r1 <= 7 * (int64_t)t1 && 10 * r2 <= 7 * (int64_t)t2, "C20 allotted time is at most 70% of the remaining time");
   PROP(r1 <= r2, "C20 allotted time does not decrease when the remaining time increases");
 }
-#ifdef PART_B
-void h_calc_contract(void) { calc_case(200); }
-#else
-void h_calc_real_mtg3(void) { calc_case(3); }
-void h_calc_real_mtg5(void) { calc_case(5); }
-#endif
 #endif
